@@ -153,14 +153,46 @@ def walk(ctx, inst, filter_spec, stats, heuristic_order=False, warm_start=False,
                               ["dominated_operations", "non_immediate_operations"]).solve(run.instance, d)
     memo = {}
     path = []
+    flaky_obs = None
+    if clumsy:
+        # ... and one of the search's own observers fails now and then; the error is caught and,
+        # if the library withdrew the dispatch, the same request is made again
+        from job_shop_lib.dispatching import DispatcherObserver
+
+        class Unreliable(DispatcherObserver):
+            _is_singleton = False
+            armed = False
+
+            def update(self, scheduled_operation):
+                if self.armed:
+                    self.armed = False
+                    raise RuntimeError("user observer failed")
+
+            def reset(self):
+                pass
+        flaky_obs = Unreliable(d)
+
+    def replay():
+        d.reset()
+        for idx, (o, m) in enumerate(path):
+            if flaky_obs is not None and idx == len(path) - 1 and (idx + m) % 2 == 0:
+                flaky_obs.armed = True
+                try:
+                    d.dispatch(run.op(o), m)
+                except RuntimeError:
+                    stats["observer_failures"] = stats.get("observer_failures", 0) + 1
+                    if not any(so.operation is run.op(o) for so in d.schedule.schedule[m]):
+                        d.dispatch(run.op(o), m)
+                finally:
+                    flaky_obs.armed = False
+            else:
+                d.dispatch(run.op(o), m)
 
     def rec():
         if r.complete():
             stats["leaves"] += 1
             # the makespan of this history is read from the REAL dispatcher
-            d.reset()
-            for o, m in path:
-                d.dispatch(run.op(o), m)
+            replay()
             if draw_leaves and stats["leaves"] <= 2:
                 import matplotlib.pyplot as plt
                 from job_shop_lib.visualization import plot_gantt_chart
@@ -178,9 +210,7 @@ def walk(ctx, inst, filter_spec, stats, heuristic_order=False, warm_start=False,
         stats["nodes"] += 1
         if stats["nodes"] > 150000:
             raise TooBig()
-        d.reset()
-        for o, m in path:
-            d.dispatch(run.op(o), m)
+        replay()
         if rule is not None:
             rule(d)       # the search looks at the rule's favourite first
         if clumsy:
@@ -235,6 +265,7 @@ def run_case(ctx, case):
                         warm_start=bool(case.get("warm_start")), clumsy=bool(case.get("clumsy")),
                         draw_leaves=bool(case.get("draw_leaves")))
             ctx.count("refused_proposals_during_the_search", stats.get("refused", 0))
+            ctx.count("observer_failures_during_the_search", stats.get("observer_failures", 0))
             ctx.count("complete_schedules_drawn_before_being_read", stats.get("drawn", 0))
             if case.get("heuristic_order"):
                 ctx.count("trees_walked_in_rule_order")
